@@ -264,12 +264,13 @@ def split_sorted(fi: FuncInfo):
     -> (ok, construct-node-or-text, group-names)"""
     from ..pattern import pfind
     from .label import _total_key
-    groups = pfind("$g.setdefault($s, []).append($v)", fi.node)
+    groups = pfind("$g.setdefault($$s, []).append($$v)", fi.node)
     gnames = {b["g"] for _, b in groups}
     base = lambda e: norm(e).split(".")[0].split("(")[0].split("[")[0]
-    srt = [l for l in walk_local(fi.node) if isinstance(l, ast.For) and isinstance(l.iter, ast.Call) and call_name(l.iter) == "sorted"
-           and l.iter.args and base(l.iter.args[0]) in gnames]
-    raw = [l for l in walk_local(fi.node) if isinstance(l, ast.For) and base(l.iter) in gnames]
+    # every iteration over the groups, `for` statements and comprehension generators alike
+    its = [l for l in walk_local(fi.node) if isinstance(l, (ast.For, ast.comprehension))]
+    srt = [l for l in its if isinstance(l.iter, ast.Call) and call_name(l.iter) == "sorted" and l.iter.args and base(l.iter.args[0]) in gnames]
+    raw = [l for l in its if base(l.iter) in gnames]
     ok = len(gnames) == 1 and len(srt) == 1 and _total_key(srt[0].iter) and not raw
     return ok, (srt[0].iter if srt else (raw[0].iter if raw else "sorted(<signature groups>)")), gnames
 
@@ -290,8 +291,8 @@ def initial_partition_sorted(fi: FuncInfo, keys_attr: str):
             break
     if not mm:
         return False, rets[-1]
-    fills = pfind("$b.setdefault($k, []).append($v)", fi.node, {"b": mm["b"]})
+    fills = pfind("$b.setdefault($$k, []).append($$v)", fi.node, {"b": mm["b"]})
     if not fills:
         return False, rets[-1]
-    ksrc = origin(local_defs(fi.node), ast.Name(id=fills[0][1]["k"], ctx=ast.Load()))
+    ksrc = origin(local_defs(fi.node), fills[0][0].func.value.args[0])
     return f"self.{keys_attr}" in norm(ksrc), rets[-1]
